@@ -90,3 +90,116 @@ def bf3_large(rec, r, wd, sizes=(300, 4128), enc=True, read=True):
                 text = L.rec_write(rec, f, key, False, wd)
                 rec.events[-1]["_cost"] = max(1, n // 16)
                 L.rec_read(rec, text, key, True, False, wd, auth=rec.last_written, _cost=max(1, n // 8))
+
+
+def failing_calls(r=None):
+    """Process-wide prelude: public entry points called with inputs they legitimately refuse (every exception swallowed).
+    The checks run it BEFORE recording their events, so that whatever a failed call leaves behind in module- or
+    class-level state (switches, caches, scratch buffers) is in place while the recorded calls are judged."""
+    import bec2format
+    from bec2format import Bf3File, Bec2File
+    from bec2format import crypto as _crypto
+    done = 0
+
+    def attempt(fn):
+        nonlocal done
+        try:
+            fn()
+        except BaseException as e:                                   # noqa: BLE001
+            if isinstance(e, (KeyboardInterrupt, SystemExit)):
+                raise
+            done += 1
+
+    key = bytes(range(0x30, 0x40))
+    good = Bf3File({"a": "b"}, [L.mk_comp({0x10: b"\x01"}, bytes(range(1, 40)))])
+    s = io.StringIO()
+    good.write_file(s, key)
+    text = s.getvalue()
+    lines = text.split("\n")
+    for bad in ("", "BF3\n", "GARBAGE\n\nAA\n", text[:len(text) // 2], text[:-20], "\n".join(lines[:-3]), text.replace("A", "G", 1),
+                text.replace("BF3", "BFX", 1)):
+        attempt(lambda: Bf3File.read_file(io.StringIO(bad), True, key))
+        attempt(lambda: Bf3File.read_file(io.StringIO(bad), False, key))
+        attempt(lambda: Bec2File.read_file(io.StringIO(bad), [], True))
+    attempt(lambda: Bf3File.read_file(io.StringIO(text), True, bytes(16)))           # wrong key
+    attempt(lambda: Bf3File.read_file("/nonexistent/dir/x.bf3", True, key))
+    attempt(lambda: good.write_file("/nonexistent/dir/x.bf3", key))
+    attempt(lambda: Bf3File({}, [L.mk_comp({1: bytes(300)}, b"\x01")]).to_binary(0, key))
+    attempt(lambda: Bf3File({}, [L.mk_comp({}, b"\x01"), L.mk_comp({1: bytes(300)}, b"\x01", 1, True)]).write_file(io.StringIO(), key))
+    attempt(lambda: Bf3File({}, [])._get_config_ndx())
+    attempt(lambda: Bf3File({}, []).set_config({(1, 2): bytes(70000)}))
+    attempt(lambda: Bec2File(good, [], key).write_file(io.StringIO(), None))
+    attempt(lambda: Bec2File.read_file(io.StringIO("BEC2\n\n00\n"), [], True))
+    attempt(lambda: Bec2File.create_from_config({(0x0202, 0x82): b"x"}, None, None))
+    for arg in (b"", bytes(15), bytes(17)):
+        attempt(lambda: bec2format.AES128(key).decrypt(arg))
+        attempt(lambda: bec2format.AES128(key).encrypt(arg) if not arg else (_ for _ in ()).throw(ValueError()))
+    attempt(lambda: bec2format.AES128(bytes(5)).encrypt(bytes(16)))
+    try:
+        from bec2format.configid import ConfigId
+        for t in ("", "x", "1-2-3", "12345-1234-1234-12-extra-" + "9" * 70, "-----", "00000-0000-0000-00 ", " \t"):
+            attempt(lambda: ConfigId.create_from_str(t))
+    except ImportError:
+        pass
+    # (last, and ending with refused ones: a later successful call of the same entry point could restore what a failed one broke)
+    for bf2 in ("", ":0000FE00\n:00000104DEADBEEF\n:0000FF00\n", "#>BOOTLOADER\n:00000104DEADBEEF\n:0000FF00\n", ":zz\n", ":000010\n",
+                "#>REBOOT a\n", "##x\n", "##a:b:c\n", ":00001010AA\n", ":0000100100\n:0000FF00\n"):
+        for enforce in (False, True):
+            attempt(lambda: Bf3File.bf2_import(io.StringIO(bf2), enforce))
+    return done
+
+
+def bec2_error_paths(rec, seams, orc, r, rcpts, C, n=6):
+    """BEC2 error-path histories, judged by Trace_Bec2 like every other bec2.write / bec2.read event:
+    (a) a write that is legitimately refused (customer-key block but no customer-key encryptor: KeyError) after other
+        blocks were already packed, then the correct write of the SAME object, read back;
+    (b) the written file read WITHOUT any decryptor / with decryptors of another file, MAC checking on and off:
+        the specification refuses it (no block yields the session key);
+    (c) three-block headers [A, undecryptable, B] whose outer blocks carry DIFFERENT session keys."""
+    from . import bec2lib as B2, bec2gen as G
+    from bec2format import Bec2File, Bf3File
+    from bec2format.bec2file import BEC2_FILE_SIG, InitEccAuthBlock
+    orders = [["update", "cust"], ["ecc", "cust"], ["update", "ecc", "cust"], ["cust"], ["ecc", "update", "cust"], ["cust", "update"]]
+    for j in range(n):
+        plan = G.Plan(r, rcpts, orders[j % len(orders)], explicit_key=(j % 2 == 0))
+        f = Bec2File(G.gen_content(r), plan.blocks, plan.key)
+        for bad_encs in ([], (), [e for e in plan.encs_w if type(e).__name__.startswith("Ecc")]):
+            for call in (lambda: f.write_file(io.StringIO(), bad_encs), lambda: f.to_binary(bad_encs)):
+                try:
+                    call()
+                except Exception:                               # noqa: BLE001 -- refused, as expected
+                    pass
+        seams.take()
+        text, ev = G.rec_bec2_write(rec, seams, orc, f, plan.meta, plan.encs_w, C.enc_specs(plan))
+        auth = B2.proj_bec2(f)
+        B2.rec_bec2_read(rec, text, list(plan.decs.values()), plan.ecc_privs, orc, True, auth=auth)
+        other = G.Plan(r, rcpts, ["cust", "update"], explicit_key=True)
+        for check in (True, False):
+            B2.rec_bec2_read(rec, text, [], plan.ecc_privs, orc, check, label="no-decryptor")
+            B2.rec_bec2_read(rec, text, list(other.decs.values()), plan.ecc_privs, orc, check, label="foreign-decryptors")
+    for j in range(n):
+        ka, kb = r.sample(["cust", "update", "ecc"], 2)
+        pa = G.Plan(r, rcpts, [ka], explicit_key=True)
+        pb = G.Plan(r, rcpts, [kb], explicit_key=True)
+        fa = Bec2File(G.gen_content(r), pa.blocks, pa.key)
+        fb = Bec2File(fa.bf3file, pb.blocks, pb.key)
+        sa, sb = io.StringIO(), io.StringIO()
+        fa.write_file(sa, pa.encs_w)
+        fb.write_file(sb, pb.encs_w)
+        ba = B2.split_header(B2.to_binary_of_text(sa.getvalue()))[0]
+        bb = B2.split_header(B2.to_binary_of_text(sb.getvalue()))[0]
+        if j % 2 == 0:
+            mid = (r.choice([4, 9, 0x7F]), bytes(r.randrange(256) for _ in range(r.choice([0, 5, 30]))))     # unknown tag
+        else:
+            sel_free = [s for s in range(4) if s not in pa.ecc_privs and s not in pb.ecc_privs][0]
+            mid = (3, InitEccAuthBlock(sel_free).pack(G.key_with_class(r, "generic"), []))                  # ECC block nobody here can open
+        seams.take()
+        hdr = BEC2_FILE_SIG + b"".join(bytes([t, len(v)]) + v for t, v in (ba, mid, bb)) + b"\x00\x00"
+        privs = dict(pa.ecc_privs)
+        privs.update(pb.ecc_privs)
+        for body_key in (fa.session_key, fb.session_key):
+            s = io.StringIO()
+            Bf3File.write_bf3_format(s, {}, hdr + fa.bf3file.to_binary(len(hdr), body_key))
+            for check in (True, False):
+                B2.rec_bec2_read(rec, s.getvalue(), list(pa.decs.values()) + list(pb.decs.values()), privs, orc, check, splice=1,
+                                 label="three-blocks-outer-keys-differ")
